@@ -32,7 +32,7 @@ func init() {
 	hx.Register(&hx.Prop{
 		ID: "C07",
 		Rule: "exhaustive blocks: (1) 11 operation-level × 10 document-level security shapes (absent / [] / [{}] / one or several requirements, scopes, the same scheme under two requirements with different scopes, an undeclared scheme, optional authentication) × all 32 verdict vectors of the callback over the (scheme, scopes) pairs in use × fail-first/multi, and each shape pair without callback; " +
-			"(2) 15 parameter layouts (nil / empty / non-empty operation list, override, same name in another location, duplicates inside a list, a parameter after an overridden one, absent required / optional, `$ref` parameters) × all 8 option sets × 7 body shapes (none, valid, invalid, missing required, absent optional, undeclared media type) × passing/failing security, every other case with request parts no parameter looks up (another header, another cookie, a second cookie of a name already sent with an invalid value); " +
+			"(2) 15 parameter layouts (nil / empty / non-empty operation list, override, same name in another location, duplicates inside a list, a parameter after an overridden one, absent required / optional, `$ref` parameters) × all 8 option sets (the six Options fields the orchestration does not read rotating through their 64 combinations) × 7 body shapes (none, valid, invalid, missing required, absent optional, undeclared media type) × passing/failing security, every other case with request parts no parameter looks up (another header, another cookie, a second cookie of a name already sent with an invalid value); " +
 			"(3) every combination of request constructor (http.NewRequest, httptest.NewRequest) × route source (hand-built, gorillamux, legacy) × document source (Go values, marshalled and loaded) × callback reads the body or not × nil Options on a set of representative operations; the combinations also rotate through blocks 1 and 2; " +
 			"(4) a seeded random stream over all of these dimensions with up to 4+4 parameters and 3 requirements, a quarter of the cases followed by a history of 1-3 further calls; " +
 			"(5) histories of 5-6 calls for one operation and the same request facts: 15 parameter layouts × 7 body shapes and 11 × 10 security shape pairs, the later calls reusing {the same RequestValidationInput, a new input around the same *http.Request, a new request against the same document / route / router} with Options {a new struct, the old struct rewritten in place, nil}, flags flipped, the callback's verdicts changed or the callback removed: every call is compared with the model's and the specification's entry for it. " +
@@ -359,6 +359,21 @@ func c07Call(c hx.Case, in *openapi3filter.RequestValidationInput, doc *openapi3
 	opts.ExcludeRequestBody = jbool(c, "excludeBody")
 	opts.ExcludeRequestQueryParams = jbool(c, "excludeQuery")
 	opts.MultiError = jbool(c, "multi")
+	// the fields of Options the orchestration must not look at
+	other := map[string]bool{}
+	for _, n := range toStrs(c["otherOpts"]) {
+		other[n] = true
+	}
+	opts.ExcludeResponseBody = other["ExcludeResponseBody"]
+	opts.ExcludeReadOnlyValidations = other["ExcludeReadOnlyValidations"]
+	opts.ExcludeWriteOnlyValidations = other["ExcludeWriteOnlyValidations"]
+	opts.IncludeResponseStatus = other["IncludeResponseStatus"]
+	opts.SkipSettingDefaults = other["SkipSettingDefaults"]
+	if other["CustomSchemaErrorFunc"] {
+		opts.WithCustomSchemaErrorFunc(func(err *openapi3.SchemaError) string { return "custom" })
+	} else {
+		opts.WithCustomSchemaErrorFunc(nil)
+	}
 	opts.AuthenticationFunc = nil
 	if !jbool(c, "authNil") {
 		opts.AuthenticationFunc = func(ctx context.Context, ai *openapi3filter.AuthenticationInput) error {
@@ -641,6 +656,20 @@ var c07Builds = func() []map[string]any {
 
 var c07BodyKinds = []string{"nil", "nobody", "empty"}
 
+// fields of openapi3filter.Options that request orchestration does not read
+var c07OtherOpts = []string{"ExcludeResponseBody", "ExcludeReadOnlyValidations", "ExcludeWriteOnlyValidations", "IncludeResponseStatus",
+	"SkipSettingDefaults", "CustomSchemaErrorFunc"}
+
+func c07Other(mask int) []any {
+	out := []any{}
+	for i, n := range c07OtherOpts {
+		if mask&(1<<i) != 0 {
+			out = append(out, n)
+		}
+	}
+	return out
+}
+
 func genC07(ctx *hx.Ctx, emit func(hx.Case)) {
 	declared := []any{"a", "b", "c"}
 	n := 0
@@ -741,7 +770,7 @@ func genC07(ctx *hx.Ctx, emit func(hx.Case)) {
 					}
 					out(hx.Case{"opParams": lay[0], "pathParams": lay[1], "opSecurity": nil, "docSecurity": c07SecShapes[3],
 						"accepted": acc, "body": body, "excludeBody": o&1 != 0, "excludeQuery": o&2 != 0, "multi": o&4 != 0,
-						"authReadsBody": (li+o+bi)%2 == 1, "noise": (li+o+bi+sec)%2 == 0})
+						"authReadsBody": (li+o+bi)%2 == 1, "noise": (li+o+bi+sec)%2 == 0, "otherOpts": c07Other((li*7 + o*5 + bi*3 + sec) % 64)})
 				}
 			}
 		}
@@ -912,6 +941,9 @@ func genC07(ctx *hx.Ctx, emit func(hx.Case)) {
 		if r.Chance(30) {
 			c["noise"] = true
 		}
+		if r.Chance(40) {
+			c["otherOpts"] = c07Other(r.Intn(64))
+		}
 		if r.Chance(25) {
 			hist := []any{}
 			for k, m := 0, 1+r.Intn(3); k < m; k++ {
@@ -923,7 +955,7 @@ func genC07(ctx *hx.Ctx, emit func(hx.Case)) {
 				}
 				hist = append(hist, map[string]any{"reuse": hx.Pick(r, []string{"input", "request", "doc"}), "optsHow": hx.Pick(r, []string{"new", "mutate"}),
 					"excludeBody": r.Chance(40), "excludeQuery": r.Chance(40), "multi": r.Bool(), "accepted": a2,
-					"authNil": r.Chance(10), "optionsNil": r.Chance(10), "authReadsBody": r.Chance(40)})
+					"authNil": r.Chance(10), "optionsNil": r.Chance(10), "authReadsBody": r.Chance(40), "otherOpts": c07Other(r.Intn(64))})
 			}
 			c["history"] = hist
 		}
@@ -959,7 +991,7 @@ func dropEach(l []any) [][]any {
 
 func shrinkC07(c hx.Case) []hx.Case {
 	var out []hx.Case
-	for _, k := range []string{"history", "opParams", "pathParams", "docSecurity", "opSecurity", "accepted"} {
+	for _, k := range []string{"history", "otherOpts", "opParams", "pathParams", "docSecurity", "opSecurity", "accepted"} {
 		if l, ok := c[k].([]any); ok {
 			for _, n := range dropEach(l) {
 				x := cloneCase(c)
